@@ -134,8 +134,8 @@ static void lst_make_sequence(vp_rng_t* r, int mode, uint64_t idx, seq_t* s)
         case 1: name = "truncate-any"; n = (size_t)vp_rng_below(r, n + 1); break;
         case 2: name = "truncate-0-64"; n = (size_t)vp_rng_below(r, 65); break;
         case 3: name = "empty-datagram"; n = 0; break;
-        case 4: name = "random-bytes"; n = (size_t)vp_rng_below(r, 1501); vp_rng_fill(r, b, n); break;
-        case 5: name = "random-1500"; n = 1500; vp_rng_fill(r, b, n); break;
+        case 4: name = "random-bytes"; n = (size_t)vp_rng_below(r, 1601); vp_rng_fill(r, b, n);   /* up to 100 bytes more than any receive buffer holds */ break;
+        case 5: name = "random-1500-or-oversize"; n = 1500 + ((idx & 8) ? (size_t)vp_rng_below(r, 101) : 0); vp_rng_fill(r, b, n); break;
         case 6: name = "cf-length-lie"; { static const uint16_t v[] = { 0, 1, 3, 4, 15, 16, 17, 2047, 65535, 1500, 1499 };
                   uint16_t x = v[vp_rng_below(r, 11)];
                   if (tscf) Avtp_Tscf_SetStreamDataLength((Avtp_Tscf_t*)(b + cfo), x); else Avtp_Ntscf_SetNtscfDataLength((Avtp_Ntscf_t*)(b + cfo), x); } break;
